@@ -35,6 +35,7 @@ CONSTANTS CfgHold,            \* configured hold time (ms)
           Budget,             \* number of environment actions per behaviour
           EdgeCover,          \* TRUE: one script per (state, last environment action), FALSE: one per state
           EstablishEarly, NoHoldTimer, AnswerNotification,  \* the broken variants
+          WithRemove,         \* TRUE: the environment may remove the neighbour and configure it again
           StarveAccepted      \* TRUE: the behaviour before fix 94330ca (DESIGN 10) (an accepted inbound connection is not served)
 
 VARIABLES pc,          \* control location of the coroutine
@@ -215,6 +216,22 @@ EIncoming ==
                                ELSE deaf' = FALSE /\ pc' = "run" /\ delayUntil' = now
     /\ UNCHANGED <<now, cause, waitFrom>>
 
+\* The neighbour is removed from the configuration (Reactor.reload without it, `peer delete`, shutdown): Peer.remove() /
+\* shutdown() = _stop(): _close() -- api down from a connected state, fsm IDLE, transport closed, no NOTIFICATION -- then
+\* stop(): fsm IDLE again, no restart; the coroutine ends.  Configured again, a new Peer starts from scratch.
+ERemove ==
+    /\ Quiet /\ pc \in {"run", "e6", "e9", "m2"}
+    /\ Env(Ev("remove", "", 0, 0, 0))
+    /\ fsm' = "IDLE" /\ apiUp' = FALSE /\ open' = FALSE /\ inq' = <<>> /\ leftAt' = -1 /\ tear' = 0
+    /\ UNCHANGED <<sentOpen, gotOpen, gotKA, hold, fault, mayFault, closing, notified, lastRx, lastKA, connAt>>
+    /\ viol' = viol \cup FsmViol(fsm, "IDLE")
+    /\ pc' = "gone" /\ deaf' = FALSE /\ UNCHANGED <<now, cause, waitFrom, delayUntil>>
+EReadd ==
+    /\ pc = "gone"
+    /\ Env(Ev("readd", "", 0, 0, 0))
+    /\ pc' = "run" /\ delayUntil' = now
+    /\ UNCHANGED <<svars, now, cause, deaf, waitFrom, viol>>
+
 \* the next moment at which a timer hands the turn to the system
 Deadline ==
     IF pc = "run" THEN delayUntil
@@ -233,6 +250,7 @@ ETick(d) ==
     /\ UNCHANGED <<svars, pc>> /\ Same
 
 EnvNext == EConnectOk \/ EConnectFail \/ ESendAny \/ (\E code \in TearCodes : ETeardown(code)) \/ EIncoming \/ (\E d \in Ticks : ETick(d))
+           \/ (WithRemove /\ (ERemove \/ EReadd))
 
 PNext == SysNext \/ EnvNext
 PSpec == PInit /\ [][PNext]_allvars
